@@ -1,7 +1,7 @@
 //! Scenario 104 (C01/C02): `#[cglue_forward]` — the generated `impl Trait for Fwd<O>` forwards every by-reference method to the value behind
 //! the handle.  The same call history runs directly on a value, through `Fwd(&mut value)`, through `Fwd(Box<value>)`, and through an opaque
 //! object whose INSTANCE is a `Fwd(&mut value)`; results, the calls the implementor saw and the final state must agree.
-//! ops: '0 i' read   '1 i v' write   '2 n' fill(&[u32] of n items)   '3' name_len   '4 a b tag' swap2 (three arguments, order matters)   '5 x' bump(impl Into<u64>)
+//! ops: '0 i' read   '1 i v' write   '2 n' fill(&[u32] of n items)   '3' name_len   '4 a b tag' swap2 (three arguments, order matters)   '5 x' bump(impl Into<u64>)   '6 v' twice and '7' describe (provided methods that the implementor overrides)
 //! params: [handle 0 Fwd(&mut T) / 1 Fwd(Box<T>) / 2 trait_obj!(Fwd(&mut T)) / 3 trait_obj!(Fwd(&mut T)) with a CArc context]
 use crate::*;
 use cglue::forward::{Forward, ForwardMut, Fwd};
@@ -15,6 +15,9 @@ pub trait Reg {
     fn name_len(&self) -> usize;
     fn swap2(&mut self, a: usize, b: usize, tag: i64) -> i64;
     fn bump(&mut self, by: impl Into<u64>) -> u64;
+    /// provided methods that the implementor OVERRIDES (with other behaviour than the default bodies): the handle must still reach the override
+    fn twice(&mut self, v: u32) -> u64 { self.write(0, v); self.write(1, v); 0 }
+    fn describe(&self) -> usize { self.name_len() }
 }
 
 pub struct Bank { id: i64, regs: Vec<u32>, total: u64, label: String }
@@ -27,6 +30,8 @@ impl Reg for Bank {
     fn name_len(&self) -> usize { log_call(vec![self.id, 3]); self.label.len() }
     fn swap2(&mut self, a: usize, b: usize, tag: i64) -> i64 { log_call(vec![self.id, 4, a as i64, b as i64, tag]); if a < self.regs.len() && b < self.regs.len() { self.regs.swap(a, b); tag * 2 + a as i64 - b as i64 } else { -tag } }
     fn bump(&mut self, by: impl Into<u64>) -> u64 { let by = by.into(); log_call(vec![self.id, 5, by as i64]); self.total = self.total.wrapping_add(by); self.total }
+    fn twice(&mut self, v: u32) -> u64 { log_call(vec![self.id, 6, v as i64]); self.total = self.total.wrapping_add(2 * v as u64); self.total + 1000 }
+    fn describe(&self) -> usize { log_call(vec![self.id, 7]); self.label.len() + 100 }
 }
 
 fn call<T: Reg>(t: &mut T, op: &[i64]) -> Vec<i64> {
@@ -37,7 +42,9 @@ fn call<T: Reg>(t: &mut T, op: &[i64]) -> Vec<i64> {
         2 => { let vs: Vec<u32> = (0..a(1) as u32).map(|i| i * 7 + 2).collect(); vec![2, t.fill(&vs) as i64] }
         3 => vec![3, t.name_len() as i64],
         4 => vec![4, t.swap2(a(1) as usize, a(2) as usize, a(3))],
-        _ => vec![5, if a(1) % 2 == 0 { t.bump(a(1) as u32) } else { t.bump(a(1) as u8) } as i64],
+        5 => vec![5, if a(1) % 2 == 0 { t.bump(a(1) as u32) } else { t.bump(a(1) as u8) } as i64],
+        6 => vec![6, t.twice(a(1) as u32) as i64],
+        _ => vec![7, t.describe() as i64],
     }
 }
 fn state(b: &Bank) -> Vec<i64> { let mut v = vec![b.total as i64, b.regs.len() as i64]; v.extend(b.regs.iter().map(|x| *x as i64)); v }
